@@ -44,7 +44,7 @@ Theorem C08_backup_is_rolled_back_file :
    let '(ov', file) := r in
    dom _ <- save_backup dm (st_patch s) (st_target s) file;
    dom _ <- (if pf_rename (st_fp s) then
-               match pf_new (st_fp s) with
+               match knew (st_fp s) with
                | None => mlift RPanic
                | Some n => match ov_get n ov' with None => mlift RPanic | Some nf => save_backup dm (st_patch s) n nf end
                end
